@@ -1,7 +1,7 @@
 from __future__ import absolute_import, print_function, division
 from pony.py23compat import cmp, unicode, buffer, int_types
 
-import builtins, json, re, sys, types, datetime, logging, itertools, warnings, inspect, ast
+import builtins, json, os, re, sys, types, datetime, logging, itertools, warnings, inspect, ast
 from operator import attrgetter, itemgetter
 from itertools import chain, starmap, repeat
 from time import time
@@ -335,6 +335,19 @@ class Local(localbase):
         local.debug, local.show_values = local.debug_stack.pop()
 
 local = Local()
+
+def _after_fork_in_child():
+    # A forked child must never use (or roll back, or close) a connection inherited from its parent:
+    # sessions that were open at the fork point continue in the child on a connection of their own
+    for database, cache in list(local.db2cache.items()):
+        connection = cache.connection
+        if connection is not None:
+            cache.connection = None
+            cache.in_transaction = False
+            database.provider.detach_forked_connection(connection)
+
+if hasattr(os, 'register_at_fork'):
+    os.register_at_fork(after_in_child=_after_fork_in_child)
 
 def _get_caches():
     return list(sorted((cache for cache in local.db2cache.values()),
